@@ -117,8 +117,23 @@ def inside_cases(draw):
     aval = a_hi if at_limit else draw(gen.fl(0, a_hi))
     dval = (d_hi if at_limit else draw(gen.fl(0, d_hi))) * draw(st.sampled_from([1, -1]))
     mavg = cs.get("min_avg_amp", 0)
-    kind = draw(st.sampled_from(["const_pulse", "const_pulse", "shaped"]))
-    if kind == "const_pulse":
+    kind = draw(st.sampled_from(["const_pulse", "const_pulse", "shaped"] + (["around_min_avg"] if mavg else [])))
+    if kind == "around_min_avg":
+        # amplitudes with zeros in them whose average sits just below / at / just above the minimum
+        if d % clk and -(-d // clk) * clk <= max(top, lo):
+            d = -(-d // clk) * clk  # on the clock grid: nothing to lengthen, only the limit matters
+        f = draw(st.sampled_from([0.98, 0.999, 1.0, 1.02]))
+        shape = draw(st.sampled_from(["ramp_up", "ramp_down", "on_off"]))
+        top_ = 2 * mavg * f
+        if amax is not None and top_ > amax:
+            top_ = amax
+        if shape == "on_off" and d >= 2:
+            h = d // 2
+            amp = dict(k="composite", parts=[dict(k="const", d=h, v=top_ * d / (2 * h)), dict(k="const", d=d - h, v=0.0)])
+        else:
+            amp = dict(k="ramp", d=d, a=0.0 if shape != "ramp_down" else top_, b=top_ if shape != "ramp_down" else 0.0)
+        pulse = dict(k="pulse", amp=amp, det=dict(k="const", d=d, v=0.0), phase=0.0)
+    elif kind == "const_pulse":
         if mavg and 0 < aval < mavg:
             aval = mavg
         pulse = dict(k="const_pulse", d=d, amp=aval, det=dval, phase=draw(st.sampled_from(gen.PHASES)))
@@ -188,6 +203,26 @@ def check_complete(case, ctx: Ctx):
         inside = False
     if not inside:
         ctx.label("outside_by_construction")
+        # the other half of the statement on the same pairs: a pulse outside a limit of amplitude,
+        # detuning or average amplitude (duration fine, nothing to lengthen) is not scheduled
+        # (clearly outside: beyond the documented 1e-6 rounding of the comparisons)
+        clearly = ((chobj.max_amp is not None and np.any(amp > chobj.max_amp + 2e-6))
+                   or (chobj.max_abs_detuning is not None and np.any(np.abs(det) > chobj.max_abs_detuning + 2e-6))
+                   or (chobj.min_avg_amp and 0 < avg < chobj.min_avg_amp - 2e-6))
+        if clearly and d % clk == 0 and d >= chobj.min_duration and (chobj.max_duration is None or d <= chobj.max_duration):
+            it.apply(dict(op="declare", name="ch", cid=0, style="kw",
+                          **({"initial_target": [0]} if chobj.addressing == "Local" else {})))
+            try:
+                seq.add(pulse, "ch", protocol=case["protocol"])
+            except Exception:  # noqa: BLE001 - refused: fine
+                ctx.label("outside:refused")
+                return
+            which = ("avg_amp" if (chobj.min_avg_amp and 0 < avg < chobj.min_avg_amp) else
+                     "amp" if (chobj.max_amp is not None and np.any(amp > chobj.max_amp)) else "det")
+            ctx.fail("C01.sound", f"accepted_outside_limit:{which}",
+                     f"pulse with average amplitude {avg:.6g}, max {amp.max():.6g}, max |det| {np.abs(det).max():.6g} accepted on "
+                     f"a channel with min_avg_amp={chobj.min_avg_amp}, max_amp={chobj.max_amp}, "
+                     f"max_abs_detuning={chobj.max_abs_detuning}")
         return
     if d % clk:
         # a waveform that cannot be re-sampled at the lengthened duration (interpolation
